@@ -326,3 +326,5 @@ func Choose(name string, lo, hi int) int {
 	}
 	return v
 }
+
+func UFSlice(fn, sym string, lenArg int) {}
